@@ -245,3 +245,12 @@ CHECKS["C33"] = {
     "level_note": "virtual time (synctest, post-1.23 ticker semantics); same-instant ties between a tick and a state change are not judged",
     "design_ref": "3/C33",
 }
+
+CHECKS["C06"] = {
+    "level": "exploration",
+    "exhaustive": True,
+    "technique": "runtime monitoring: exhaustive interleaving of the protocol steps of two exchanges with one message ID (script-controlled peers, virtual time) against the real gateway session and the real client library; completion/exactly-once oracle over the recorded trace",
+    "level_text": "For every pair (client-initiated exchange, broker/gateway-initiated exchange) with a coinciding message ID, every merge of their protocol steps is executed (the peers are scripted, so the order is chosen, not sampled), with and without an earlier finished, timed-out or unanswered exchange that used the same ID. The monitor requires each forward and acknowledgement exactly once, which exposes replaced or deleted exchange state as a missing or repeated packet.",
+    "level_note": "exhaustive for the listed exchange kinds and step orders (thorough: x all prefixes); steps are lock-step, so races inside one step are those of C25/C11",
+    "design_ref": "3/C06",
+}
